@@ -1169,7 +1169,9 @@ func (z *Decimal) SetInt(x *big.Int) *Decimal {
 	z.neg = x.Sign() < 0
 	if bits == 0 {
 		z.form = zero
-		z.prec = DefaultDecimalPrec
+		if z.prec == 0 {
+			z.prec = DefaultDecimalPrec
+		}
 		return z
 	}
 	// x != 0
